@@ -42,7 +42,7 @@ BAD_PROBS = {
 
 def items(tier, seed):
     its = []
-    progs = [(n, s, v) for n, s, v in gen.CURATED if n in ('rw2', 'readme', 'fib', 'elif3', 'reassign_cond', 'swap', 'decimal', 'nested', 'guard_two', 'three_way_overlap', 'or_overlap', 'param2', 'du', 'not_and')]
+    progs = [(n, s, v) for n, s, v in gen.CURATED if n in ('rw2', 'readme', 'fib', 'elif3', 'reassign_cond', 'swap', 'decimal', 'nested', 'guard_two', 'three_way_overlap', 'or_overlap', 'param2', 'du', 'not_and', 'simult_const_first')]
     progs += gen.family(12000 + seed, 4 if tier == 'quick' else 60)
     for n, s, v in progs + PRECEDENCE:
         its.append(dict(name='spell_' + n, kind='spell', src=s, vars=v, nmax=3 if tier == 'quick' else 5, budget=60 if tier == 'quick' else 200,
